@@ -46,3 +46,62 @@ package store
 //@ func newTargetWindowFilter
 //@   ensures[complete] high < MaxUint64 ==> forall v int :: low <= v && v <= high ==> filterAdmits(result, v)
 //@   ensures[tight] high < MaxUint64 ==> forall v int :: v < low || v > high ==> !filterAdmits(result, v)
+
+// ---- C10/C07: a transaction is an overlay ---------------------------------------------------------------------
+// memHash(k): the in-process hash a key is filed under (collision freedom is ASSUMED: two keys of one
+// process never share a hash). A write is recorded under the key's hash and changes no other entry; a read
+// sees the transaction's own latest write (a recorded delete reads as "absent") and falls through to the
+// parent only for keys the transaction never wrote; Discard forgets everything. Nothing reaches the
+// parent before Flush.
+//@ spec func memHash(k BSeq) int
+//@ func lib.MemHash
+//@   trusted
+//@   pure
+//@   ensures result == memHash(bytes(data))
+// reading the parent writes nothing but read buffers (the parent is another Txn, a versioned store or a
+// pebble snapshot: ASSUMED for the interface; Txn's own Get is checked against the same frame below)
+//@ func (TxnReaderI).Get
+//@   trusted
+//@   modifies elems(uint8), box([]byte), ghost(mutexHeld)
+//@ func (*Txn).update
+//@   modifies map(uint64;valueOp), ghost(mutexHeld)
+//@   ensures[recorded] indom(t.txn.ops, memHash(bytes(key))) && t.txn.ops[memHash(bytes(key))].value == val && t.txn.ops[memHash(bytes(key))].op == opAction && t.txn.ops[memHash(bytes(key))].version == version && t.txn.ops[memHash(bytes(key))].key == key
+//@   ensures[others] forall h uint64 :: h != memHash(bytes(key)) ==> indom(t.txn.ops, h) == old(indom(t.txn.ops, h)) && t.txn.ops[h] == old(t.txn.ops[h])
+//@ func (*Txn).Set
+//@   modifies map(uint64;valueOp), ghost(mutexHeld)
+//@   ensures[recorded] indom(t.txn.ops, memHash(bytes(key))) && t.txn.ops[memHash(bytes(key))].value == value && t.txn.ops[memHash(bytes(key))].op == opSet && t.txn.ops[memHash(bytes(key))].version == t.writeVersion
+//@   ensures[others] forall h uint64 :: h != memHash(bytes(key)) ==> indom(t.txn.ops, h) == old(indom(t.txn.ops, h)) && t.txn.ops[h] == old(t.txn.ops[h])
+//@ func (*Txn).Delete
+//@   modifies map(uint64;valueOp), ghost(mutexHeld)
+//@   ensures[recorded] indom(t.txn.ops, memHash(bytes(key))) && t.txn.ops[memHash(bytes(key))].op == opDelete && t.txn.ops[memHash(bytes(key))].version == t.writeVersion
+//@   ensures[others] forall h uint64 :: h != memHash(bytes(key)) ==> indom(t.txn.ops, h) == old(indom(t.txn.ops, h)) && t.txn.ops[h] == old(t.txn.ops[h])
+//@ func (*Txn).Get
+//@   ensures[ownwrite] old(indom(t.txn.ops, memHash(bytes(key)))) && old(t.txn.ops[memHash(bytes(key))].op) == opSet ==> isnil(result1) && result0 == old(t.txn.ops[memHash(bytes(key))].value)
+//@   ensures[owndelete] old(indom(t.txn.ops, memHash(bytes(key)))) && old(t.txn.ops[memHash(bytes(key))].op) == opDelete ==> isnil(result1) && result0 == nil
+//@   callsite Get requires[fallthrough] !indom(t.txn.ops, old(memHash(bytes(key))))
+//@   ensures[readonly] forall h uint64 :: indom(t.txn.ops, h) == old(indom(t.txn.ops, h)) && t.txn.ops[h] == old(t.txn.ops[h])
+//@ func (*Txn).Discard
+//@   ensures[empty] forall h uint64 :: !indom(t.txn.ops, h)
+// flushing one recorded operation: a set becomes SetAt, a delete becomes DeleteAt, of the recorded key
+// (under the flush prefix), value and the flush version - nothing else is written
+//@ spec func bcat(a BSeq, b BSeq) BSeq
+//@ func lib.Append
+//@   trusted
+//@   pure
+//@   ensures bytes(result) == bcat(bytes(a), bytes(b))
+// writing to the parent changes the parent's recorded operations or its batch, never this transaction's
+// wiring (ASSUMED for the interface; the parent is another Txn, a versioned store or a pebble batch)
+//@ func (TxnWriterI).SetAt
+//@   trusted
+//@   modifies map(uint64;valueOp), elems(uint8), box([]byte), ghost(mutexHeld)
+//@ func (TxnWriterI).DeleteAt
+//@   trusted
+//@   modifies map(uint64;valueOp), elems(uint8), box([]byte), ghost(mutexHeld)
+//@ func (*Txn).write
+//@   callsite SetAt requires[set] op.op == opSet && arg2 == op.value && arg3 == writeVersion && (prefix == nil ? arg1 == op.key : bytes(arg1) == bcat(bytes(prefix), bytes(op.key)))
+//@   callsite DeleteAt requires[delete] op.op == opDelete && arg2 == writeVersion && (prefix == nil ? arg1 == op.key : bytes(arg1) == bcat(bytes(prefix), bytes(op.key)))
+// (the deferred closure of Commit: unlock, then forget the flushed operations)
+//@ func (*Txn).Commit$1
+//@   ensures[empty] forall h uint64 :: !indom(t.txn.ops, h)
+//@ func (*Txn).Commit
+//@   ensures[emptied] forall h uint64 :: !indom(t.txn.ops, h)
